@@ -1708,6 +1708,27 @@ func c04Tasks(tier string) []mc.Task {
 	// symbols, row j+1 differs from it at position j only - by the letter whose code differs in the lowest bit
 	// (D/E, F/G, H/I, L/M, P/Q, R/S, V/W, X/Y, ...) when there is one, else by another letter - so that a
 	// differing column stands after identical ones at every offset of an 8- or 16-column block
+	// partition sets of many partitions (a code per site stored in a narrow integer would wrap at 128 / 256):
+	// N partitions of one site each, and N partitions interleaved over 2N sites, declared three ways
+	ts = append(ts, mc.Task{Name: "split#many-partitions", Run: func(c *mc.Ctx) {
+		for _, n := range []int{127, 128, 129, 130, 200, 255, 256, 257, 258, 300} {
+			for _, per := range []int{1, 2} {
+				L := n * per
+				a, b := make([]byte, L), make([]byte, L)
+				m := make([]int, L)
+				for i := range m {
+					m[i] = i % n
+					a[i], b[i] = "AC"[(i/3)%2], "CA-"[i%3]
+				}
+				for _, bd := range []string{"sitewise", "ranges", "text"} {
+					c04Check(c, c04Case{Op: "Split", Seqs: []string{string(a), string(b)}, Map: m, Build: bd})
+				}
+			}
+			if c.Expired() {
+				return
+			}
+		}
+	}})
 	ts = append(ts, mc.Task{Name: "shape#length-sweep", Run: func(c *mc.Ctx) {
 		const cyc = "ADEFGHILMPQRSVWXYKNT-C"
 		var lens []int
